@@ -33,7 +33,7 @@ func init() {
 	})
 	intrinsics[rtPkg+"NondetInt64"] = intrinsics[rtPkg+"NondetInt"]
 	reg("NondetDuration", func(c *icall) ([]*State, bool) {
-		v := c.nondet(litArg(c.args[0], "label"), "Int", "int")
+		v := c.nondet(litArg(c.args[0], "label"), "Int", "dur")
 		c.s.addPC(inInt64(v))
 		c.set(symInt(v))
 		return nil, false
